@@ -39,27 +39,61 @@ func CanonicalForm(p *core.Program, r *core.Report, rule string) {
 	}
 	// the canonicaliser itself must set the flag and clear the map under the fullness test
 	{
-		info := canon.Pkg.TypesInfo
 		setsFlag, clearsMap := false, false
-		ast.Inspect(canon.Decl.Body, func(n ast.Node) bool {
-			as, ok := n.(*ast.AssignStmt)
-			if !ok {
+		// the two writes, in the canonicaliser itself or in a method of the set it calls (a constant argument binds
+		// the callee's parameter)
+		var effects func(g *core.FuncDecl, bound map[types.Object]string, depth int)
+		effects = func(g *core.FuncDecl, bound map[types.Object]string, depth int) {
+			info := g.Pkg.TypesInfo
+			ast.Inspect(g.Decl.Body, func(n ast.Node) bool {
+				switch x := n.(type) {
+				case *ast.AssignStmt:
+					for i, l := range x.Lhs {
+						if i >= len(x.Rhs) {
+							continue
+						}
+						if core.FieldOf(info, l) == allField {
+							if v, ok := core.ConstString(info, x.Rhs[i]); ok && v == "true" {
+								setsFlag = true
+							}
+							if id, isId := ast.Unparen(x.Rhs[i]).(*ast.Ident); isId && bound[info.ObjectOf(id)] == "true" {
+								setsFlag = true
+							}
+						}
+						if core.FieldOf(info, l) == protoField {
+							if cl, ok := ast.Unparen(x.Rhs[i]).(*ast.CompositeLit); ok && len(cl.Elts) == 0 {
+								clearsMap = true
+							}
+							if c, ok := ast.Unparen(x.Rhs[i]).(*ast.CallExpr); ok && core.IsBuiltinCall(info, c, "make") && len(c.Args) == 1 {
+								clearsMap = true
+							}
+						}
+					}
+				case *ast.CallExpr:
+					if depth >= 1 {
+						return true
+					}
+					fn := core.Callee(info, x)
+					hd := p.ByObj[fn]
+					if hd == nil || hd == g {
+						return true
+					}
+					hsig := fn.Type().(*types.Signature)
+					if hsig.Recv() == nil || !core.TypeIs(hsig.Recv().Type(), core.PkgCommon, "ConnectionSet") {
+						return true
+					}
+					b := map[types.Object]string{}
+					for k, a := range x.Args {
+						if v, ok := core.ConstString(info, a); ok && k < hsig.Params().Len() {
+							b[hsig.Params().At(k)] = v
+						}
+					}
+					effects(hd, b, depth+1)
+				}
 				return true
-			}
-			for i, l := range as.Lhs {
-				if core.FieldOf(info, l) == allField && i < len(as.Rhs) {
-					if v, ok := core.ConstString(info, as.Rhs[i]); ok && v == "true" {
-						setsFlag = true
-					}
-				}
-				if core.FieldOf(info, l) == protoField && i < len(as.Rhs) {
-					if cl, ok := ast.Unparen(as.Rhs[i]).(*ast.CompositeLit); ok && len(cl.Elts) == 0 {
-						clearsMap = true
-					}
-				}
-			}
-			return true
-		})
+			})
+		}
+		effects(canon, nil, 0)
 		r.Check(setsFlag && clearsMap, rule, canon.Key()+": sets AllowAll and empties the protocol map", p.Pos(canon.Decl.Pos()),
 			"canonicaliser has the expected shape", "checkIfAllConnections no longer sets AllowAll=true with an empty protocol map: full sets stay spelled as three ranges")
 	}
